@@ -872,9 +872,8 @@ pub fn run_history_with_plan(g: &GenModule, rng: &mut Rng, cfg: &HistoryCfg, enc
             let dir = format!("{}/out/run", std::env::var("VERIF_DIR").unwrap_or_else(|_| "/verif".into()));
             let _ = std::fs::create_dir_all(&dir);
             let path = format!("{}/emit-h-{}.wasm", dir, std::process::id());
-            let r = catch(|| module.emit_wasm(&path).map(|_| std::fs::read(&path).unwrap_or_default()).unwrap_or_default());
-            let _ = std::fs::remove_file(&path);
-            r
+            // the file is NOT removed between emissions: emit_wasm must replace an older (possibly longer) file completely
+            catch(|| module.emit_wasm(&path).map(|_| std::fs::read(&path).unwrap_or_default()).unwrap_or_default())
         } else {
             catch(|| module.encode())
         }
@@ -1034,8 +1033,19 @@ impl<'m, 'a> Driver<'m, 'a> {
                 ops.extend(self.mem_seq(mi, rng));
             }
         }
-        for t in &r {
-            ops.push(const_op(*t, rng));
+        // 1 in 4: the body ends with a tail call to a live function whose results are the new function's results
+        let tail: Vec<u32> = callable.iter().cloned().filter(|t| self.model.funcs[t].sig.as_ref().map(|(_, tr)| *tr == r).unwrap_or(false)).collect();
+        if !tail.is_empty() && rng.chance(1, 4) {
+            let t = *rng.pick(&tail);
+            let (tp, _) = self.model.funcs[&t].sig.clone().unwrap();
+            for pt in &tp {
+                ops.push(const_op(*pt, rng));
+            }
+            ops.push(wasmparser::Operator::ReturnCall { function_index: t });
+        } else {
+            for t in &r {
+                ops.push(const_op(*t, rng));
+            }
         }
         let name = if rng.bool() { Some(format!("built{}", uid)) } else { None };
         let mut syms: Vec<String> = ops.iter().map(|o| self.model.sym_injected(o)).collect();
